@@ -169,6 +169,12 @@ def c12(run):
 def c10(run):
     run.build()
     run.mc("MC_Bloom")
+    if run.tier == "thorough":
+        # the scan algorithm (spender index + recursive re-check) equals the least fixpoint in every block order
+        run.mc("MC_TxScan", "MC_TxScan.cfg", timeout=3600)
+        r = run.mc("MC_TxScan", "MC_TxScan_norecheck.cfg", expect_fail=True, timeout=3600)
+        if r["ok"]:
+            raise pipeline.Infra("negative control failed: the scan without the recursive re-check should depend on the block order")
     trace, _ = run.exec("C10")
     run.validate("Trace_TxFilter", trace)
     return finish(run, assumptions=BLOOM_ASSUME + [
